@@ -282,6 +282,34 @@ def runtime(ck, tier, deep):
         r2 = canon(call(f, a, k))
         if not same(r1, r2):
             ck.violation(dict(sig, clause="not-repeatable"), rep, f"{label}: a second call with the same arguments returned different bits")
+        # the caller edits its own arrays in place and calls again with the same objects: the answer is the one for the edited
+        # values (what a call with clean caches gives), not a remembered one
+        def edit(x):
+            if x.dtype.kind == "f" and x.ndim >= 1 and x.size >= 4 and x.flags.writeable:
+                y = x.reshape(-1) if x.flags.c_contiguous else None
+                if y is not None:
+                    y[::3] *= 0.5
+                    if x.ndim == 2 and min(x.shape) >= 9:            # … and a whole ring around the middle, for weight-like arrays
+                        yy, xx = np.mgrid[:x.shape[0], :x.shape[1]]
+                        rr = np.hypot(yy - x.shape[0] // 2, xx - x.shape[1] // 2)
+                        x[(rr > 3.5) & (rr < 6.5)] = 0.0
+            return x
+        ea, ek = copy.deepcopy(args0), copy.deepcopy(kw0)
+        try:
+            call(f, ea, ek)
+            map_arrays(ea, edit), map_arrays(ek, edit)
+            r_edit = canon(call(f, ea, ek))
+            for m_ in ("basex", "dasch", "daun", "linbasex", "rbasex"):
+                getattr(__import__("abel"), m_).cache_cleanup()
+            r_clean = canon(call(f, copy.deepcopy(ea), copy.deepcopy(ek)))
+            ck.count(("S.runtime", label, "edited"), suite="S.runtime")
+            fl1 = np.concatenate([np.ravel(x).astype(float) for x in _arrays(r_edit)]) if _arrays(r_edit) else np.zeros(0)
+            fl2 = np.concatenate([np.ravel(x).astype(float) for x in _arrays(r_clean)]) if _arrays(r_clean) else np.zeros(0)
+            if fl1.shape != fl2.shape or (fl1.size and np.nanmax(np.abs(fl1 - fl2), initial=0) > 1e-9 * max(1.0, np.nanmax(np.abs(fl2), initial=0))):
+                ck.violation(dict(sig, clause="remembers-edited-argument"), rep,
+                             f"{label}: after its array arguments were edited in place, the call returns something else than for the same values with clean caches")
+        except Exception:
+            pass                  # (the edited values may be unacceptable to the callable: not a question of this clause)
         # caller scribbles over everything returned, then calls again
         raw = call(f, a, k)
         scribble(raw)
